@@ -22,9 +22,44 @@ theorem binary_isBinary : VarInfo.binary.isBinary = true := by decide
 
 theorem isBin01_eq {i : VarInfo} (h : isBin01 i = true) : i = VarInfo.binary := by simpa [isBin01] using h
 
-/-- raw gadget step: the rows the gadget emits (before lowering) over the gadget's auxiliary variables -/
+/-- `Not` with a fixed argument: the constant variable carries `1 - c`, the row equates the result with it -/
+theorem gNotFixed_exact (res arg : Var) (B : Bnds) (n : Nat) (hr : res < n) (ha : arg < n) (hf : (B arg).isFixed = true) :
+    Exact (gNotFixed res arg B n) n (fun x => inDom B x arg) (fun x => x res = Fun.val x (.not arg)) := by
+  constructor
+  · intro y hd haux hc
+    have hya := fixed_val hf hd
+    simp only [gNotFixed, auxOk, VarInfo.admits, and_true] at haux
+    obtain ⟨h1, h2, _⟩ := haux
+    have h1' := h1 _ rfl
+    have h2' := h2 _ rfl
+    have hc' := hc (.linRhs .eq [(-1, res), (1, n)] 0) (by simp [gNotFixed])
+    simp [Con.sat, Cmp.holds, evalLin] at hc'
+    simp only [Fun.val]
+    grind
+  · intro x hd h
+    have hya := fixed_val hf hd
+    refine ⟨fun v => if v = n then 1 - x arg else x v, ?_, ?_, ?_⟩
+    · intro v hv; simp [Nat.ne_of_lt hv]
+    · simp only [gNotFixed, auxOk, and_true, if_true]
+      refine ⟨fun l hl => ?_, fun u hu => ?_, fun hi => by simp at hi⟩
+      · simp at hl; subst hl; rw [hya]; exact Rat.le_refl
+      · simp at hu; subst hu; rw [hya]; exact Rat.le_refl
+    · have e1 : res ≠ n := Nat.ne_of_lt hr
+      have e2 : arg ≠ n := Nat.ne_of_lt ha
+      intro c hc
+      simp only [gNotFixed, List.mem_singleton] at hc
+      subst hc
+      simp [Con.sat, Cmp.holds, evalLin, e1, e2, Fun.val] at h ⊢
+      grind
+
+/-- raw gadget step: the rows the gadget emits (before lowering) over the gadget's auxiliary variables.  The bounds `B` may be
+narrowed ones: what is needed of them is that results of logical types and logical arguments take 0/1 values only. -/
 theorem raw_stepOK (N n : Nat) (B Br : Bnds) (o : Opts) (d : Def) (hn : N ≤ n)
-    (hBr : ∀ v, v < N → Br v = B v) (ht : typedDef B d = true) (hl : linDefOK B d = true)
+    (hBr : ∀ v, v < N → Br v = B v) (hfr : d.f.inFrag = true)
+    (h01r : isLogicalFun d.f = true → ∀ y, DomB N B y → (y d.res = 0 ∨ y d.res = 1))
+    (h01a : ∀ a ∈ logicalArgs d.f, ∀ y, DomB N B y → (y a = 0 ∨ y a = 1))
+    (hcnt : ∀ a ∈ logicalArgs d.f, (B a).isBinary = true)
+    (hl : linDefOK B d = true)
     (hres : d.res < N) (hvars : ∀ v ∈ d.f.vars, v < N)
     (hrows : ∀ c ∈ (gadgetOf d Br o n).cons, ∀ v ∈ c.vars, v < n + (gadgetOf d Br o n).vars.length) :
     StepOK N (DomB N B) (Step.ofGadget d (gadgetOf d Br o n) n) := by
@@ -33,10 +68,10 @@ theorem raw_stepOK (N n : Nat) (B Br : Bnds) (o : Opts) (d : Def) (hn : N ≤ n)
   have hvars : ∀ v ∈ f.vars, v < N := hvars
   have hresn : res < n := Nat.lt_of_lt_of_le hres hn
   have hvn : ∀ v ∈ f.vars, v < n := fun v hv => Nat.lt_of_lt_of_le (hvars v hv) hn
-  simp only [typedDef, Bool.and_eq_true, decide_eq_true_eq] at ht
-  obtain ⟨⟨hb, hfr⟩, h3⟩ := ht
-  have hb : B res = resBnd B f := hb
   have hfr : f.inFrag = true := hfr
+  have h01r : isLogicalFun f = true → ∀ y, DomB N B y → (y res = 0 ∨ y res = 1) := h01r
+  have h01a : ∀ a ∈ logicalArgs f, ∀ y, DomB N B y → (y a = 0 ∨ y a = 1) := h01a
+  have hcnt : ∀ a ∈ logicalArgs f, (B a).isBinary = true := hcnt
   have hdom : ∀ y, DomB N B y → ∀ v, v < N → inDom Br y v := fun y hy v hv => by
     unfold inDom; rw [hBr v hv]; exact hy v hv
   cases f with
@@ -59,23 +94,24 @@ theorem raw_stepOK (N n : Nat) (B Br : Bnds) (o : Opts) (d : Def) (hn : N ≤ n)
       apply stepOK_of_exact N _ (fun _ => True) _ _ n hn (fun _ _ => trivial) _ hrows
       exact C01_gadget_min res a t ctx Br n hresn (fun b hb' => hvn b (by simpa [Fun.vars] using hb'))
   | and as =>
-    simp only [List.all_eq_true] at h3
     apply stepOK_of_exact N _ (binDom Br res as) _ _ n hn _ (C01_gadget_and res as ctx Br n) hrows
     intro y hy
-    have hr01 : y res = 0 ∨ y res = 1 := by
-      have := hy res hres; unfold inDom at this; rw [hb] at this; exact binary_admits this
-    exact ⟨hr01, fun a ha => bin01_vals (h3 a ha) (hy a (hvars a (by simpa [Fun.vars] using ha))), hdom y hy res hres⟩
+    exact ⟨h01r rfl y hy, fun a ha => h01a a (by simpa [logicalArgs] using ha) y hy, hdom y hy res hres⟩
   | or as =>
-    simp only [List.all_eq_true] at h3
     apply stepOK_of_exact N _ (binDom Br res as) _ _ n hn _ (C01_gadget_or res as ctx Br n) hrows
     intro y hy
-    have hr01 : y res = 0 ∨ y res = 1 := by
-      have := hy res hres; unfold inDom at this; rw [hb] at this; exact binary_admits this
-    exact ⟨hr01, fun a ha => bin01_vals (h3 a ha) (hy a (hvars a (by simpa [Fun.vars] using ha))), hdom y hy res hres⟩
+    exact ⟨h01r rfl y hy, fun a ha => h01a a (by simpa [logicalArgs] using ha) y hy, hdom y hy res hres⟩
   | not a =>
     have ha : a < N := hvars a (by simp [Fun.vars])
-    apply stepOK_of_exact_eq N _ (fun x => inDom Br x a) _ _ n hn (fun y hy => hdom y hy a ha) _ hrows
-    exact C01_gadget_not res a Br n hresn (Nat.lt_of_lt_of_le ha hn)
+    by_cases hfx : (Br a).isFixed = true
+    · have hg : gadgetOf ⟨res, ctx, .not a⟩ Br o n = gNotFixed res a Br n := by simp [gadgetOf, hfx]
+      rw [hg] at hrows ⊢
+      apply stepOK_of_exact_eq N _ (fun x => inDom Br x a) _ _ n hn (fun y hy => hdom y hy a ha) _ hrows
+      exact gNotFixed_exact res a Br n hresn (Nat.lt_of_lt_of_le ha hn) hfx
+    · have hg : gadgetOf ⟨res, ctx, .not a⟩ Br o n = gNot res a Br n := by simp [gadgetOf, hfx]
+      rw [hg] at hrows ⊢
+      apply stepOK_of_exact_eq N _ (fun x => inDom Br x a) _ _ n hn (fun y hy => hdom y hy a ha) _ hrows
+      exact C01_gadget_not res a Br n hresn (Nat.lt_of_lt_of_le ha hn)
   | ifthen c t e =>
     have hc : c < N := hvars c (by simp [Fun.vars])
     have htt : t < N := hvars t (by simp [Fun.vars])
@@ -83,14 +119,13 @@ theorem raw_stepOK (N n : Nat) (B Br : Bnds) (o : Opts) (d : Def) (hn : N ≤ n)
     apply stepOK_of_exact_eq N _ _ _ _ n hn _
       (C01_gadget_ifthen res c t e Br n hresn (Nat.lt_of_lt_of_le hc hn) (Nat.lt_of_lt_of_le htt hn) (Nat.lt_of_lt_of_le he hn)) hrows
     intro y hy
-    exact ⟨bin01_vals h3 (hy c hc), hdom y hy c hc, hdom y hy t htt, hdom y hy e he⟩
+    exact ⟨h01a c (by simp [logicalArgs]) y hy, hdom y hy c hc, hdom y hy t htt, hdom y hy e he⟩
   | count as =>
-    simp only [List.all_eq_true] at h3
     apply stepOK_of_exact_eq N _ _ _ _ n hn _
       (C01_gadget_count_binary_partial res as Br n (fun a ha => by
-        rw [hBr a (hvars a (by simpa [Fun.vars] using ha)), isBin01_eq (h3 a ha)]; exact binary_isBinary)) hrows
+        rw [hBr a (hvars a (by simpa [Fun.vars] using ha))]; exact hcnt a (by simpa [logicalArgs] using ha))) hrows
     intro y hy a ha
-    exact bin01_vals (h3 a ha) (hy a (hvars a (by simpa [Fun.vars] using ha)))
+    exact h01a a (by simpa [logicalArgs] using ha) y hy
   | condLin k body rhs =>
     simp only [linDefOK, Bool.and_eq_true, Bool.not_eq_true'] at hl
     obtain ⟨⟨hne, hty⟩, hrhs⟩ := hl
@@ -99,9 +134,7 @@ theorem raw_stepOK (N n : Nat) (B Br : Bnds) (o : Opts) (d : Def) (hn : N ≤ n)
       rw [linBnd_congr B Br body (fun p hp => hBr p.2 (hbodyN p hp))]; exact hty
     have hDD : ∀ y, DomB N B y → condDom Br res y ∧ ∀ p ∈ body, inDom Br y p.2 := by
       intro y hy
-      have hr01 : y res = 0 ∨ y res = 1 := by
-        have := hy res hres; unfold inDom at this; rw [hb] at this; exact binary_admits this
-      exact ⟨⟨hr01, hdom y hy res hres⟩, fun p hp => hdom y hy p.2 (hbodyN p hp)⟩
+      exact ⟨⟨h01r rfl y hy, hdom y hy res hres⟩, fun p hp => hdom y hy p.2 (hbodyN p hp)⟩
     by_cases hk : k = .eq
     · subst hk
       have hem := C01_gadget_condeq_emits res body rhs ctx Br o n hne hresn (fun p hp => Nat.lt_of_lt_of_le (hbodyN p hp) hn)
